@@ -2096,6 +2096,61 @@ fn st_restore_pair_v5_q2() {
     restore_pair(true, true)
 }
 
+// restore_packets with ONE packet (the two-packet forms above exceed 28 GB): kind 0 = PUBLISH QoS1, 1 = PUBLISH QoS2, 2 = PUBREL
+fn restore_one(v5: bool, kind: u8) {
+    let mut c = CC::new(v311_or_v5(v5));
+    let i: u16 = kani::any();
+    kani::assume(i != 0);
+    let mut v: Vec<GenericStorePacket<u16>> = Vec::new();
+    if kind == 2 {
+        if v5 {
+            v.push(v5_0::GenericPubrel::<u16>::builder().packet_id(i).build().unwrap().try_into().unwrap());
+        } else {
+            v.push(mk_pubrel311(i).try_into().unwrap());
+        }
+    } else if v5 {
+        v.push(mk_pub5(kind + 1, i, true).try_into().unwrap());
+    } else {
+        v.push(mk_pub311(kind + 1, i, true).try_into().unwrap());
+    }
+    c.restore_packets(v);
+    assert!(sth::len(&c.store) == 1 && sth::id_at(&c.store, 0) == Some(i), "[C16] the restored packet is in the store");
+    assert!(c.pid_man.is_used_id(i), "[C16] the restored identifier is in use");
+    assert!(c.pid_puback.contains(&i) == (kind == 0) && c.pid_puback.len() == (kind == 0) as usize, "[C16] exactly a restored QoS1 PUBLISH waits for PUBACK");
+    assert!(c.pid_pubrec.contains(&i) == (kind == 1) && c.pid_pubrec.len() == (kind == 1) as usize, "[C16] exactly a restored QoS2 PUBLISH waits for PUBREC");
+    assert!(c.pid_pubcomp.contains(&i) == (kind == 2) && c.pid_pubcomp.len() == (kind == 2) as usize, "[C16] exactly a restored PUBREL waits for PUBCOMP");
+    assert!(c.register_packet_id(i).is_err(), "[C16] a restored identifier cannot be registered again");
+    core::mem::forget(c);
+}
+#[kani::proof]
+#[kani::unwind(2)]
+#[kani::stub(core::str::from_utf8, utf8_model)]
+fn st_restore_one_v311_publish_q1() {
+    restore_one(false, 0)
+}
+#[kani::proof]
+#[kani::unwind(2)]
+#[kani::stub(core::str::from_utf8, utf8_model)]
+fn st_restore_one_v311_publish_q2() {
+    restore_one(false, 1)
+}
+#[kani::proof]
+#[kani::unwind(2)]
+fn st_restore_one_v311_pubrel() {
+    restore_one(false, 2)
+}
+#[kani::proof]
+#[kani::unwind(2)]
+fn st_restore_one_v5_pubrel() {
+    restore_one(true, 2)
+}
+#[kani::proof]
+#[kani::unwind(2)]
+#[kani::stub(core::str::from_utf8, utf8_model)]
+fn st_restore_one_v5_publish_q2() {
+    restore_one(true, 1)
+}
+
 // manual alias re-binding with ONE earlier binding (the two-binding form exceeds 23 GB)
 #[kani::proof]
 #[kani::unwind(2)]
